@@ -45,6 +45,9 @@ type Program struct {
 	KnownFams map[string]int
 	errTab    map[string]int64
 	reach     map[*FuncInfo]bool
+	C20Derived map[string]string
+	localInitMemo map[*types.Var][]ast.Expr
+	visitingInit  map[ast.Expr]bool
 }
 
 func LoadProgram(repo string, patterns []string) (*Program, error) {
